@@ -15,6 +15,7 @@ open Failsafe.Conc.Linearize (HOp linearize)
 inductive M
   | brk (s : Driver.Breaker.St)
   | lim (s : Driver.Limiter.St)
+  | bh (cap held : Nat)          -- bulkhead: a counting semaphore (C06)
   | none
 
 structure St where
@@ -30,6 +31,7 @@ def key : M → String
       | .smooth _ st => toString (repr st)
       | .bursty _ st => toString (repr st)
       | .none => "") ++ "@" ++ toString s.now
+  | .bh c h => s!"{c}/{h}"
   | .none => ""
 
 def dedupe (ms : List M) : List M :=
@@ -53,6 +55,11 @@ def applyOp (m : M) (op : String) : M × String :=
       let (s', out) := Driver.Limiter.step s ["acq", parts.getD 0 "1", parts.getD 1 "-1"]
       (.lim s', out.getD "")
     | _ => (m, "bad-op")
+  | .bh cap held =>
+    -- t / w: an acquisition succeeds iff a permit is free at its linearization point; r: release; n: no-op
+    if op == "t" || op == "w" then (if held < cap then (.bh cap (held + 1), "T") else (m, "F"))
+    else if op == "r" then (.bh cap (held - 1), "-")
+    else (m, "-")
   | .none => (m, "bad-op")
 
 def parseHOp (s : String) : Option HOp :=
@@ -65,6 +72,7 @@ def check (st : St) (toks : List String) (obs : Option String) : St × Option St
   | "cfg" :: "breaker" :: rest =>
     let (b, _) := Driver.Breaker.step {} ("cfg" :: rest)
     ({ st with cands := [.brk b] }, none)
+  | ["cfg", "bulkhead", cap, _] => ({ st with cands := [.bh (cap.toNat?.getD 1) 0] }, none)
   | "cfg" :: kind :: rest =>
     let (l, _) := Driver.Limiter.step {} ("cfg" :: kind :: rest)
     ({ st with cands := [.lim l] }, none)
@@ -73,7 +81,7 @@ def check (st : St) (toks : List String) (obs : Option String) : St × Option St
     ({ st with cands := st.cands.map (fun m => match m with
         | .brk s => .brk { s with now := s.now + d }
         | .lim s => .lim { s with now := s.now + d }
-        | .none => .none) }, none)
+        | m => m) }, none)
   | ["probe"] =>
     match obs with
     | none => (st, none)
@@ -83,10 +91,12 @@ def check (st : St) (toks : List String) (obs : Option String) : St × Option St
         | .brk s =>
           let (_, out) := Driver.Breaker.step s ["probe"]
           " ".intercalate (((out.getD "").splitOn " ").take 8) == o8
+        | .bh cap held => o.trim == s!"free={cap - held}"
         | _ => true)
       if keep.isEmpty then
         let exp := match st.cands.head? with
           | some (.brk s) => (Driver.Breaker.step s ["probe"]).2.getD ""
+          | some (.bh cap held) => s!"free={cap - held}"
           | _ => "?"
         (st, some s!"no linearization so far leads to this status; one candidate gives: {exp}")
       else ({ st with cands := keep }, none)
